@@ -176,7 +176,10 @@ def run(ctx):
         if not any('"t": "%s"' % k in js for k in PROX_SUBST) or '"t": "swap"' in js:
             continue        # wrappers around proximals only; "swap" is a deliberately non-alias-safe user operator
         for space in ((sp, spb) if (i + ctx.seed) % 7 == 0 else (sp,)):
-            op = U.build(line['prog'], space, PROX_SUBST)
+            try:
+                op = U.build(line['prog'], space, PROX_SUBST)
+            except Exception:
+                continue        # an expression the library cannot build is C04's business
             x = space.point('V', line['pts'][0])
             ev = alias_event(op, x, 'program')
             if ev is None or ev['raised'].startswith('plain-call-'):
